@@ -80,9 +80,26 @@ pub fn run(p: &LifeParams, sc: &str) -> (Vec<Vec<String>>, Value) {
     enum AnyT {
         Model(ModelTransport),
         Mmio(virtio_drivers::transport::mmio::MmioTransport<'static>),
+        Pci(virtio_drivers::transport::pci::PciTransport),
     }
     let cfg_len = cfg.len();
-    let t = if p.transport == "mmio" {
+    let t = if p.transport.starts_with("pci") {
+        use virtio_drivers::transport::pci::bus::{Cam, DeviceFunction, MmioCam, PciRoot};
+        let mut d = crate::pci::VirtioPciDev::new(p.offered, zoo::num_queues(&p.kind), std::cmp::min(p.max_queue, 32768) as u16, cfg.clone(), 4);
+        d.reset_lag = 2;
+        crate::pci::install_standard((0, 3, 0), zoo::device_type(&p.kind) as u32, d, cfg.len(), !cfg.is_empty());
+        crate::pci::with_bus(|b| b.log = false);
+        let df = DeviceFunction { bus: 0, device: 3, function: 0 };
+        let r = if p.transport == "pcicam" {
+            let base = crate::pci::map_cam(Cam::Ecam);
+            let mut root = PciRoot::new(unsafe { MmioCam::new(base, Cam::Ecam) });
+            virtio_drivers::transport::pci::PciTransport::new::<LedgerHal, _>(&mut root, df)
+        } else {
+            let mut root = PciRoot::new(crate::pci::ModelCam);
+            virtio_drivers::transport::pci::PciTransport::new::<LedgerHal, _>(&mut root, df)
+        };
+        AnyT::Pci(r.expect("pci transport"))
+    } else if p.transport == "mmio" {
         let dev = std::rc::Rc::new(std::cell::RefCell::new(crate::mmio::VirtioMmioDev::new(
             if p.legacy { 1 } else { 2 }, zoo::device_type(&p.kind) as u32, p.offered, zoo::num_queues(&p.kind), p.max_queue, cfg.clone())));
         let size = 0x100 + cfg.len();
@@ -101,6 +118,7 @@ pub fn run(p: &LifeParams, sc: &str) -> (Vec<Vec<String>>, Value) {
     let r = catch_unwind(AssertUnwindSafe(move || match t {
         AnyT::Model(t) => zoo::build(&kind, t),
         AnyT::Mmio(t) => zoo::build(&kind, t),
+        AnyT::Pci(t) => zoo::build(&kind, t),
     }));
     let result;
     let mut segs = vec![];
@@ -189,6 +207,13 @@ pub fn all_params(thorough: bool, seed: u64) -> Vec<LifeParams> {
         .filter(|(i, p)| thorough || p.fail_at > 0 || p.cfg_mode != "full" || i % 3 == 0)
         .map(|(_, p)| LifeParams { transport: "mmio".into(), ..p.clone() })
         .collect();
+    let pc: Vec<LifeParams> = v
+        .iter()
+        .enumerate()
+        .filter(|(i, p)| !p.legacy && (thorough || p.fail_at > 0 || p.cfg_mode != "full" || i % 3 == 1))
+        .map(|(i, p)| LifeParams { transport: if i % 2 == 0 { "pci".into() } else { "pcicam".into() }, ..p.clone() })
+        .collect();
     v.extend(mm);
+    v.extend(pc);
     v
 }
